@@ -544,7 +544,26 @@ fn known_class(i: &Instruction) -> Option<&'static str> {
     known_class0(i).or_else(|| expr_class(i))
 }
 
+fn empty_definition(i: &Instruction) -> bool {
+    match i {
+        Instruction::CalibrationDefinition(d) => d.instructions.is_empty(),
+        Instruction::MeasureCalibrationDefinition(d) => d.instructions.is_empty(),
+        Instruction::CircuitDefinition(d) => d.instructions.is_empty(),
+        Instruction::FrameDefinition(d) => d.attributes.is_empty(),
+        Instruction::WaveformDefinition(d) => d.definition.matrix.is_empty(),
+        Instruction::GateDefinition(d) => match &d.specification {
+            GateSpecification::Matrix(m) => m.is_empty(),
+            GateSpecification::Permutation(p) => p.is_empty(),
+            _ => false,
+        },
+        _ => false,
+    }
+}
+
 fn known_class0(i: &Instruction) -> Option<&'static str> {
+    if empty_definition(i) {
+        return Some("empty-definition-body");
+    }
     fn awkward_real(v: f64) -> bool {
         // printed by {:?} / lexical in a form the lexer accepts only partly: none known
         let _ = v;
@@ -787,6 +806,22 @@ fn main() {
             "rawcapture-i",
             mutant,
         );
+    }
+    // definitions with an empty body / attribute map / matrix: accepted by the constructors
+    {
+        let q0 = vec![Qubit::Fixed(0)];
+        let empties = vec![
+            Instruction::CalibrationDefinition(CalibrationDefinition::new(CalibrationIdentifier::new("X".into(), vec![], vec![], q0.clone()).unwrap(), vec![])),
+            Instruction::MeasureCalibrationDefinition(MeasureCalibrationDefinition::new(MeasureCalibrationIdentifier::new(None, Qubit::Fixed(0), None), vec![])),
+            Instruction::CircuitDefinition(CircuitDefinition::new("C".into(), vec![], vec![], vec![])),
+            Instruction::FrameDefinition(FrameDefinition::new(FrameIdentifier::new("xy".into(), q0.clone()), IndexMap::new())),
+            Instruction::WaveformDefinition(WaveformDefinition::new("w".into(), Waveform::new(vec![], vec![]))),
+            Instruction::GateDefinition(GateDefinition::new("G".into(), vec![], GateSpecification::Matrix(vec![])).unwrap()),
+            Instruction::GateDefinition(GateDefinition::new("G".into(), vec![], GateSpecification::Permutation(vec![])).unwrap()),
+        ];
+        for i in &empties {
+            run_case(&mut run, i, "empty-definition", mutant);
+        }
     }
     run.finish(
         "Instruction trees built through the public constructors (Gate::new, Delay::new, Call::try_new, \
